@@ -605,6 +605,10 @@ class Interp:
             return
         if k == 'CXXForRangeStmt':
             rng = self.eval(fn, S[n['range']], env)
+            if isinstance(rng, (bytes, bytearray)):
+                rng = list(rng)
+            if isinstance(rng, (set, frozenset)):
+                rng = sorted(rng)
             if not isinstance(rng, (list, tuple)):
                 raise OutOfFragment('range-for over non-list')
             lv = S[n['loopvar']]
